@@ -146,6 +146,18 @@ func Start(o Opts) (*Checker, error) {
 }
 
 // Stop runs Cleanup once (Caddy calls Cleanup exactly once per provisioned module).
+// StartNoWait provisions a checker and returns as soon as Provision returns (the initial update
+// pass of the ticker goroutine may still be running or may not have begun).
+func StartNoWait(o Opts) (*Checker, error) {
+	InstallHooks()
+	c := &crl.CRLRevocationChecker{}
+	if err := c.Provision(o.Config(), zap.NewNop()); err != nil {
+		_ = c.Cleanup()
+		return nil, err
+	}
+	return &Checker{C: c, Opts: o}, nil
+}
+
 func (c *Checker) Stop() {
 	if c.stopped {
 		return
